@@ -55,7 +55,7 @@ OPTION_NONE = 'core::option::Option::None'
 def _field_of(pl, adt, name=None):
     """Does place pl go through field `name` (any if None) of struct `adt`?  Returns the field name or None."""
     for p in pl['p']:
-        if p['k'] == 'field' and (ty_head(clean_ty(p.get('bty', ''))) == adt or (adt is None and ty_head(clean_ty(p.get('bty', ''))).startswith('desync::'))) and (name is None or p['n'] == name):
+        if p['k'] == 'field' and (ty_head(clean_ty(p.get('bty', ''))) == adt or (adt is None and (ty_head(clean_ty(p.get('bty', ''))).startswith('desync::') or p.get('was_struct')))) and (name is None or p['n'] == name):
             return p['n']
     return None
 
